@@ -36,7 +36,8 @@ class C08(Prop):
                 "NV.C08.move_walk_terminates", "NV.C08.task_no_hang", "NV.C08.no_hang", "NV.C08.objects_filter_sound",
                 "NV.C08.catch_contains_errors", "NV.C08.catch_restores_guards",
                 "NV.C08.absMap_spec", "NV.C08.lookup_refines_read", "NV.C08.enter_refines_insert",
-                "NV.C08.enter_refused_when_present", "NV.C08.remove_refines_delete", "NV.C08.table_is_map_reachable"]
+                "NV.C08.enter_refused_when_present", "NV.C08.remove_refines_delete", "NV.C08.table_is_map_reachable",
+                "NV.C08.exec_stable", "NV.C08.load_val_named", "NV.C08.load_returns_registered"]
     consts = [("oDestructed", "O_DESTRUCTED"), ("oEnableCommands", "O_ENABLE_COMMANDS"), ("oClone", "O_CLONE")]
     const_headers = ["lpc/object.h"]
     quick_n = 700
@@ -57,7 +58,9 @@ class C08(Prop):
                   "reaches a NULL / dangling dereference (no_crash) or an endless super walk (no_hang); objects(filter) lists "
                   "only live objects, in obj_list order (objects_filter_sound); the name table refines a finite map (NV/C08/Refine.lean: "
                   "find = read, enter = insert / refused, unlink = delete); load_object's inherit detour with its re-lookup and "
-                  "user_parser's loop with actions returning 0 are inside the interpreter the theorems quantify over; the model is tied to the source by the "
+                  "user_parser's loop with actions returning 0 are inside the interpreter the theorems quantify over; inside a task "
+                  "allocated objects keep their names and destructed objects stay destructed (exec_stable), and the object "
+                  "find_or_load_object returns is the one registered under the name (load_returns_registered); the model is tied to the source by the "
                   "regenerated Pearson hash table / hash sizes / prefix lengths / comparison operators, by 18 tie obligations "
                   "over regenerated statement orders and conditions, and by running the real driver "
                   "and the model on the same generated histories with a walker over the real structures after every step; "
